@@ -517,6 +517,12 @@ def do_check(prop, tier, seed, only=None, write_evidence=True):
             e = results[h]
             meta = byname[h]
             verdict, reason = classify(e)
+            degenerate = None
+            if verdict == "INCONCLUSIVE" and reason.startswith("vacuity") and meta.get("sampled") \
+                    and any(v == "Satisfied" for v in e["covers"].values()):
+                # an enumerated (sampled) shape may be degenerate — e.g. not(empty) never accepts: the query is still
+                # decided for every input; it is kept, marked, and does not count as non-trivial in the evidence
+                verdict, degenerate = "HOLDS", reason
             rec = {"harness": h, "shape": meta.get("shape"), "family": meta.get("family"), "N": meta.get("N"),
                    "unwind": meta.get("unwind"), "error_type": meta.get("error_type"),
                    "symbolic": meta.get("symbolic"), "assumptions": meta.get("assumptions"),
@@ -525,6 +531,8 @@ def do_check(prop, tier, seed, only=None, write_evidence=True):
                    "vccs_remaining": e["stats"].get("vccs_remaining"),
                    "program_steps": e["stats"].get("size_program_expression"), "cbmc_checks": e["n_checks"],
                    "covers": e["covers"], "aims": meta.get("aims")}
+            if degenerate:
+                rec["degenerate_shape"] = degenerate
             if verdict == "FAILED":
                 labels = sorted({f["description"] for f in e["failed"] if f["status"] == "Failure" and "unwinding" not in f["description"]})
                 rec["failed_checks"] = [f for f in e["failed"] if f["status"] == "Failure"][:8]
